@@ -405,7 +405,8 @@ Qed.
 Lemma push_within_spec cfg s vs : Inv s -> length vs = length (cols s) ->
   if decide (len s < cap s)
   then exists h x, push_within cfg s vs = Ok (created_state cfg s h x vs) (Some (created_handle s h x)) /\
-                   Inv (created_state cfg s h x vs) /\ cap (created_state cfg s h x vs) = cap s
+                   Inv (created_state cfg s h x vs) /\ cap (created_state cfg s h x vs) = cap s /\
+                   head s = Free h /\ slots s !! h = Some x
   else push_within cfg s vs = Ok s None.
 Proof.
   intros HI Hvs. pose proof (i_le s HI) as Hle. unfold push_within.
